@@ -287,3 +287,11 @@ func vxMakeColLite(typ string, P int) vxCol {
 func vxFloatSame(x, y float64) bool {
 	return vx.Or(x == y, vx.And(x != x, y != y))
 }
+
+// vxBoolConc forks on a symbolic bool and returns it as a concrete one.
+func vxBoolConc(b bool) bool {
+	if b {
+		return true
+	}
+	return false
+}
